@@ -26,8 +26,9 @@ import (
 
 type wop struct {
 	Writer  int
-	Kind    string // tx (insert + COMMIT on main) | dc (autocommit insert + dolt_commit on the writer's branch)
-	PK      int64
+	Kind    string  // tx (insert + COMMIT on main) | dc (autocommit insert + dolt_commit on the writer's branch)
+	PK      int64   // first row
+	PKs     []int64 // every row of the operation (a held transaction inserts several)
 	T0, T1  int64
 	Outcome string // ok | indeterminate | failed
 	InsOK   bool   // dc: the autocommit insert was acknowledged (even if dolt_commit was not)
@@ -64,7 +65,8 @@ func c08online(c *rig.Ctx) {
 	c.Rule("one database, 6 writer sessions: 3 run `insert; COMMIT` transactions on main (primary-key table + keyless table), 3 run autocommit " +
 		"insert + dolt_commit on their own branch; every row value is unique (writer*1e6+seq). A collector session creates fresh garbage and calls " +
 		"dolt_gc in rotating modes (default/--full/--shallow x archive level) while verifhook sleeps stretch gc.afterMark / gc.beforeFinalize / " +
-		"gc.afterFinalize / gc.beforeSwap; first under the session_aware safepoint controller, then (after a server restart) under " +
+		"gc.afterFinalize / gc.beforeSwap (schedules: writers free / writers only until the end of the mark window / writers only between drain and " +
+		"finalize / transactions held open across the whole collection and committed afterwards); first under the session_aware safepoint controller, then (after a server restart) under " +
 		"kill_connections. Ledger oracle: every acknowledged row is present exactly once and every acknowledged dolt_commit hash is in its " +
 		"branch's log — checked after each collection (acks completed before the read started), at the end, and after each restart; operations " +
 		"that ended in a connection error are indeterminate (0 or 1 occurrence). Plus chunk-closure walk and full-read fingerprint without " +
@@ -104,7 +106,7 @@ func c08online(c *rig.Ctx) {
 			h := hitOf(pt)
 			t0 := rig.Mono()
 			switch sched.Load().(string) {
-			case "all":
+			case "all", "straddle":
 				time.Sleep(sleep)
 				record(pt, t0)
 			case "quiet-after-mark":
@@ -182,13 +184,22 @@ func c08online(c *rig.Ctx) {
 			}
 			sq := seq[i].Add(1)
 			pk := int64(i)*1_000_000 + sq
-			o := wop{Writer: i, PK: pk, T0: rig.Mono()}
+			o := wop{Writer: i, PK: pk, PKs: []int64{pk}, T0: rig.Mono()}
 			var err error
 			if i < 3 {
 				o.Kind = "tx"
-				err = x.Exec(fmt.Sprintf("insert into kv values (%d,%d,'%s')", pk, i, strings.Repeat(fmt.Sprint(pk%97), 1+int(pk%20))))
-				if err == nil {
-					err = x.Exec(fmt.Sprintf("insert into kl values (%d,%d)", i, pk))
+				for {
+					err = x.Exec(fmt.Sprintf("insert into kv values (%d,%d,'%s')", pk, i, strings.Repeat(fmt.Sprint(pk%97), 1+int(pk%20))))
+					if err == nil {
+						err = x.Exec(fmt.Sprintf("insert into kl values (%d,%d)", i, pk))
+					}
+					if err != nil || !gt.holding() || stop.Load() || len(o.PKs) > 400 {
+						break
+					}
+					// schedule "straddle": the transaction stays open across the collection and keeps writing
+					time.Sleep(3 * time.Millisecond)
+					pk = int64(i)*1_000_000 + seq[i].Add(1)
+					o.PKs = append(o.PKs, pk)
 				}
 				if err != nil {
 					// nothing was committed: the transaction dies with the statement / connection
@@ -201,7 +212,7 @@ func c08online(c *rig.Ctx) {
 				} else if sqlrig.IsConnErr(err) {
 					o.Outcome = "indeterminate"
 				} else {
-					o.Outcome = "failed-commit" // a COMMIT answered with an error: may or may not have been applied in part; treated as indeterminate
+					o.Outcome = "failed-commit" // a COMMIT answered with an error: treated as indeterminate
 					x.Exec("rollback")
 				}
 			} else {
@@ -280,33 +291,38 @@ func c08online(c *rig.Ctx) {
 		}
 		lost := 0
 		for _, o := range ops {
-			k := fmt.Sprint(o.PK)
 			if o.T1 >= before {
 				continue
 			}
-			wit := map[string]any{"op": o, "when": when}
-			switch o.Kind {
-			case "tx":
-				if o.Outcome == "ok" {
-					if mainKV[k] != 1 || mainKL[k] != 1 {
-						lost++
-						viol("c08/online/acked-row-lost/tx", fmt.Sprintf("row %s acknowledged by COMMIT is present %d times in kv and %d times in kl %s", k, mainKV[k], mainKL[k], when), wit)
+			if len(o.PKs) > 1 && o.Outcome == "ok" {
+				tl.inc("c08.held_transactions_checked")
+			}
+			for _, pk := range o.PKs {
+				k := fmt.Sprint(pk)
+				wit := map[string]any{"op": o, "when": when, "row": pk}
+				switch o.Kind {
+				case "tx":
+					if o.Outcome == "ok" {
+						if mainKV[k] != 1 || mainKL[k] != 1 {
+							lost++
+							viol("c08/online/acked-row-lost/tx", fmt.Sprintf("row %s acknowledged by COMMIT is present %d times in kv and %d times in kl %s", k, mainKV[k], mainKL[k], when), wit)
+						}
+					} else if mainKV[k] > 1 || mainKL[k] > 1 {
+						viol("c08/online/duplicate/tx", fmt.Sprintf("row %s (outcome %s) is present %d times in kv and %d times in kl %s", k, o.Outcome, mainKV[k], mainKL[k], when), wit)
 					}
-				} else if mainKV[k] > 1 || mainKL[k] > 1 {
-					viol("c08/online/duplicate/tx", fmt.Sprintf("row %s (outcome %s) is present %d times in kv and %d times in kl %s", k, o.Outcome, mainKV[k], mainKL[k], when), wit)
-				}
-			case "dc":
-				if o.InsOK && brWork[o.Writer] != nil && brWork[o.Writer][k] != 1 {
-					lost++
-					viol("c08/online/acked-row-lost/autocommit", fmt.Sprintf("row %s acknowledged by an autocommit insert is present %d times in the working set of wb%d %s", k, brWork[o.Writer][k], o.Writer, when), wit)
-				}
-				if o.Outcome == "ok" && brLog[o.Writer] != nil && brHead[o.Writer] != nil {
-					if brLog[o.Writer][o.Hash] != 1 {
+				case "dc":
+					if o.InsOK && brWork[o.Writer] != nil && brWork[o.Writer][k] != 1 {
 						lost++
-						viol("c08/online/acked-commit-lost", fmt.Sprintf("commit %s acknowledged by dolt_commit is not in the log of wb%d %s", o.Hash, o.Writer, when), wit)
-					} else if brHead[o.Writer][k] != 1 {
-						lost++
-						viol("c08/online/acked-row-lost/dolt_commit", fmt.Sprintf("row %s committed by acknowledged commit %s is missing at the head of wb%d %s", k, o.Hash, o.Writer, when), wit)
+						viol("c08/online/acked-row-lost/autocommit", fmt.Sprintf("row %s acknowledged by an autocommit insert is present %d times in the working set of wb%d %s", k, brWork[o.Writer][k], o.Writer, when), wit)
+					}
+					if o.Outcome == "ok" && brLog[o.Writer] != nil && brHead[o.Writer] != nil {
+						if brLog[o.Writer][o.Hash] != 1 {
+							lost++
+							viol("c08/online/acked-commit-lost", fmt.Sprintf("commit %s acknowledged by dolt_commit is not in the log of wb%d %s", o.Hash, o.Writer, when), wit)
+						} else if brHead[o.Writer][k] != 1 {
+							lost++
+							viol("c08/online/acked-row-lost/dolt_commit", fmt.Sprintf("row %s committed by acknowledged commit %s is missing at the head of wb%d %s", k, o.Hash, o.Writer, when), wit)
+						}
 					}
 				}
 			}
@@ -352,7 +368,7 @@ func c08online(c *rig.Ctx) {
 		}
 		for k := 0; k < n; k++ {
 			g := specsSession[(round+int(c.Seed))%len(specsSession)]
-			sc := []string{"all", "quiet-after-mark", "only-before-finalize"}[round%3]
+			sc := []string{"all", "quiet-after-mark", "only-before-finalize", "straddle"}[round%4]
 			if (kill || sc != "all") && g.Mode == "shallow" {
 				g = gcSpec{Mode: "default", Archive: 1}
 			}
@@ -364,6 +380,9 @@ func c08online(c *rig.Ctx) {
 			sched.Store(sc)
 			if sc == "only-before-finalize" {
 				gt.pause()
+			}
+			if sc == "straddle" {
+				gt.hold(true)
 			}
 			x, err := s.Open(db)
 			if err != nil {
@@ -389,6 +408,7 @@ func c08online(c *rig.Ctx) {
 			_, err = x.Query(g.call())
 			g1 := rig.Mono()
 			sched.Store("all")
+			gt.hold(false)
 			gt.resume()
 			x.Close()
 			if err != nil {
@@ -433,6 +453,7 @@ func c08online(c *rig.Ctx) {
 			verify(s, fmt.Sprintf("after online collection %d (%s)", round, g), g1)
 		}
 		stop.Store(true)
+		gt.hold(false)
 		gt.resume()
 		wg.Wait()
 		verify(s, "after the writers stopped", rig.Mono())
@@ -497,6 +518,7 @@ func c08online(c *rig.Ctx) {
 	c.Require(tl.get("c08.online_gc_runs") >= 2, "fewer than two online collections completed")
 	c.Require(tl.get("c08.online_gc_runs_collected_garbage") > 0, "no online collection collected the garbage probe")
 	c.Require(tl.get("c08.online_rounds_with_overlap.quiet-after-mark") > 0, "no round in which writers committed only until the end of the mark phase")
+	c.Require(tl.get("c08.held_transactions_checked") > 0, "no transaction that stayed open across a collection was committed and checked")
 	c.Require(tl.get("c08.online_rounds_with_overlap.only-before-finalize") > 0, "no round in which writers committed only between drain and finalize")
 	for _, pt := range gcPoints {
 		c.Require(tl.get("c08.commits_overlapping."+pt) > 0, "no acknowledged writer commit overlapped phase "+pt)
@@ -506,10 +528,14 @@ func c08online(c *rig.Ctx) {
 // gate parks the writers on request of the collector / a GC hook.
 type gate struct {
 	mu      sync.Mutex
+	held    atomic.Bool // transaction writers keep their transaction open (schedule "straddle")
 	paused  bool
 	parked  int
 	writers int
 }
+
+func (g *gate) hold(v bool)   { g.held.Store(v) }
+func (g *gate) holding() bool { return g.held.Load() }
 
 func (g *gate) enter() { g.mu.Lock(); g.writers++; g.mu.Unlock() }
 func (g *gate) leave() { g.mu.Lock(); g.writers--; g.mu.Unlock() }
